@@ -31,9 +31,11 @@ PID = "C11"
 LEVEL = "exploration"
 TECHNIQUE = ("runtime monitoring: real fold()/fold_enhanced()/heal() on generated schemas x corrupted serialisations x "
              "strategy orders; provenance oracle (independent raw_decode extractor + generator ground truth + own coercion "
-             "table), direct re-validation, plain-vs-enhanced differential, statistics/on_misfold counters as observation points")
+             "table), direct re-validation, plain-vs-enhanced differential, statistics/on_misfold counters as observation points; "
+             "long-lived-instance sessions (repeated texts, per-call strategy lists, twin/sibling schemas, re-entrant callback folds) "
+             "and healing loops over unusual retry/decay configurations go through the same monitors")
 RULE = ("cases = fixed witness raws x all 64 strategy orders, then seeded random (schema, instance, semantic swap, writer style, "
-        "wrapper, order); non-trivial = the raw is strict-valid JSON for the schema, or it is not and the fold is valid; "
+        "wrapper, order), a share of them continued as a healing-loop run or as a multi-fold session on one instance; non-trivial = the raw is strict-valid JSON for the schema, or it is not and the fold is valid; "
         "distinct = (schema shape, corruption labels, strategy used, valid)")
 ASSUMPTIONS = [
     "schemas are plain pydantic field models (int/float/str/bool/list/Optional/one nested model), no custom validators, aliases or extra='forbid'",
@@ -41,6 +43,8 @@ ASSUMPTIONS = [
     "strategy lists are non-empty lists of FoldingStrategy members (an empty list means 'default' in the API)",
     "non-finite floats only occur in top-level fields of generated instances",
     "pydantic lax-mode validation defines 'instance of the schema' (the library validates with model_validate)",
+    "healing loop: max_retries >= 0 and confidence_decay >= 0 (a negative decay is not a discount); the generator does not raise",
+    "a valid enhanced fold names a strategy from the caller's strategy list (the list is the set of strategies allowed to accept)",
 ]
 
 PERSON = (("name", "str", 0), ("age", "int", 0))
@@ -152,6 +156,10 @@ def plan(tier):
                 "repair:removed_trailing_comma_object": 50, "repair:fixed_single_quote_key": 50,
                 "repair:quoted_unquoted_key": 50, "repair:converted_true": 20, "repair:converted_undefined": 5,
                 "heal_runs": 1000, "heal_valid": 200, "misfold_callbacks": 1000,
+                "heal_valid_after_retries": 200, "heal_valid_decay_saturated": 80, "heal_degraded": 300, "heal_confidences_checked": 1500,
+                "raws_with_literal_typography": 800, "strict_valid_typography_raws": 100, "strict_first_exact_typography": 60,
+                "sessions": 500, "session_steps": 2500, "session_refolds_of_accepted_text": 1000, "session_refold_now_rejected": 150,
+                "session_reentrant_folds": 500, "strategy_membership_checked": 6000,
                 "stats:attempts:strict": 10000, "stats:attempts:extraction": 10000,
                 "stats:attempts:lenient": 10000, "stats:attempts:repair": 10000,
             }}
@@ -245,7 +253,7 @@ def judge(ctx, case, rng):
     for lb in case["labels"]:
         ctx.count("op:" + lb)
     ctx.count("order:" + ("default" if not order else "len%d" % len(order)))
-    if any(ord(ch) > 0x2000 for ch in raw[:4000]):
+    if G.has_typography(raw):
         ctx.count("raws_with_literal_typography")
 
     misfolds = []
@@ -262,8 +270,8 @@ def judge(ctx, case, rng):
     strict_valid, E = raw_facts(ctx, raw, S)
     if strict_valid:
         ctx.count("strict_valid_raws")
-        if not raw.isascii():
-            ctx.count("strict_valid_non_ascii_raws")
+        if G.has_typography(raw):
+            ctx.count("strict_valid_typography_raws")
 
     # ---- run the real code (a fresh instance per API)
     ch, per_call = mk()
@@ -366,8 +374,8 @@ def assess(ctx, case, S, enh, pl, eff, misfolds, strict_valid, E):
                 ctx.violation("strict-valid-rejected:" + which, "schema-valid JSON reported invalid with STRICT configured", _desc(case))
         if eff[0] == FS.STRICT:
             ctx.count("strict_first_exact")
-            if not raw.isascii():
-                ctx.count("strict_first_exact_non_ascii")
+            if G.has_typography(raw):
+                ctx.count("strict_first_exact_typography")
             if enh.valid and (used != FS.STRICT or enh.confidence != 1.0):
                 ctx.violation("strict-valid-not-by-strict", "schema-valid JSON folded by %s with confidence %r although STRICT is first" % (
                     used, enh.confidence), _desc(case))
@@ -415,6 +423,9 @@ def session_monitor(ctx, case, rng):
 
     ctor = rng.choice([None, None, rng.choice(orders())])
     ch = Chaperone(strategies=list(ctor), on_misfold=on_misfold, silent=True) if ctor else Chaperone(on_misfold=on_misfold, silent=True)
+    # what a call without a per-call list must use for the whole life of the instance: the constructor's list, or the
+    # documented default order (read off a fresh instance, not off the long-lived one)
+    configured = list(ctor) if ctor else list(Chaperone(silent=True).strategies)
     history = []
     accepted = set()        # (text, schema index) already reported valid by this instance
     for step in range(rng.randint(3, 7)):
@@ -427,7 +438,9 @@ def session_monitor(ctx, case, rng):
             order = rng.choice([None] + [rng.choice(orders())] * 4)
         raw = texts[ti]
         shp, S = schemas[si]
-        eff = list(order) if order else list(ch.strategies)
+        eff = list(order) if order else configured
+        if not order and step:
+            ctx.count("session_default_order_after_override")
         plain_first = rng.random() < 0.5
         history.append({"text": ti, "schema": ("same", "twin", "sibling")[si], "order": [s.value for s in order] if order else "default",
                         "first": "fold" if plain_first else "fold_enhanced"})
